@@ -419,7 +419,9 @@ def fam_mem(rng, n, exhaustive_depth=0):
     if exhaustive_depth:
         import itertools
         for slots in (1, 2):
-            al = ops_alphabet(slots)
+            f = 1
+            al = ["DPROV", "DNEWPDU", "MNEWFRAG %s" % ctx(f), "MNEWFRAG %s" % ctx(f + slots), "MTAKE %d" % f,
+                  "MTAKE %d" % (f + slots), "MSAVE", "DPROVBACK"]
             idx = 0
             for seq in itertools.product(range(len(al)), repeat=exhaustive_depth):
                 # start from a memory with one free buffer so that depth is spent on interesting prefixes
@@ -558,7 +560,7 @@ FAMILIES = {
     "HDR": lambda rng, t: fam_hdr(rng, 200 * t),
     "CRC": lambda rng, t: fam_crc(rng, 300 * t),
     "EXT": lambda rng, t: fam_ext(rng, 500 * t),
-    "MEM": lambda rng, t: fam_mem(rng, 400 * t, exhaustive_depth=(2 if t == 1 else 3)),
+    "MEM": lambda rng, t: fam_mem(rng, 400 * t, exhaustive_depth=(4 if t == 1 else 5)),
     "ENC": lambda rng, t: fam_enc(rng, 1500 * t) + fam_encfrag(rng, 800 * t),
     "ENCX": lambda rng, t: fam_encx(rng, 1200 * t),
     "PRE": lambda rng, t: fam_pre(rng, 1200 * t),
